@@ -19,6 +19,20 @@ def state_digest():
     return codec.json_digest([st[0], codec.bytes_digest(st[1]), int(st[2]), int(st[3]), repr(float(st[4]))])
 
 
+CONFLICT_SITE = "poisson[crop_corner=True, calibration block reaches the grid edge where r >= 1]"
+
+
+def _crop_radius(ny, nx, cy, cx):
+    """Normalised elliptical radius measured from the calibration region (the documented
+    crop criterion is r < 1)."""
+    yy, xx = np.mgrid[:ny, :nx]
+    xr = np.maximum(np.abs(xx - nx / 2) - cx / 2, 0)
+    xr = xr / xr.max()
+    yr = np.maximum(np.abs(yy - ny / 2) - cy / 2, 0)
+    yr = yr / yr.max()
+    return np.sqrt(xr ** 2 + yr ** 2)
+
+
 class CallBudgetExceeded(BaseException):
     """Raised by the counting seam around samp._poisson: a deterministic
     (count-based, not wall-clock) bound that turns a hang into a verdict."""
@@ -215,6 +229,12 @@ class RngWorld(World):
                 kw = dict(calib=calib_arg, dtype=np.dtype(args["dtype"]).type if args["dtype"] != "bool" else bool,
                           crop_corner=args["crop_corner"], seed=seed_arg, max_attempts=args["max_attempts"],
                           tol=args["tol"])
+                accel_arg = args["accel"]
+                if at == "numpy":
+                    # every argument as the numpy scalar a computed value would be
+                    kw.update(crop_corner=np.bool_(args["crop_corner"]), max_attempts=np.int64(args["max_attempts"]),
+                              tol=np.float64(args["tol"]))
+                    accel_arg = np.float64(accel_arg)
                 if args.get("return_density"):
                     kw["return_density"] = True
                 inner = samp._poisson
@@ -227,7 +247,7 @@ class RngWorld(World):
                     return inner(*aa, **kk)
                 samp._poisson = counted
                 try:
-                    mask = samp.poisson(shape_arg, args["accel"], **kw)
+                    mask = samp.poisson(shape_arg, accel_arg, **kw)
                 except CallBudgetExceeded:
                     raise Violation("poisson_does_not_terminate", site, step,
                                     {"args": args, "inner_calls": calls["n"], "jit": not jit_off})
@@ -289,14 +309,28 @@ class RngWorld(World):
                                 ok = True
                     stats["probes.rng_calib_checked"] += 1
                     if not ok:
-                        raise Violation("calibration_not_fully_sampled", site, step, {"args": args})
+                        csite = site
+                        if args["crop_corner"]:
+                            # the two clauses of the statement conflict where the library's own
+                            # calibration block (int(n/2 - c/2) : int(n/2 + c/2)) contains points whose
+                            # normalised radius is >= 1: the crop clause demands they be zero.  Only
+                            # such points may be missing under the narrower site; anything else missing
+                            # is reported under the plain site.
+                            rr_ = _crop_radius(ny, nx, cy, cx)
+                            r0, r1 = int(ny / 2 - cy / 2), int(ny / 2 + cy / 2)
+                            c0, c1 = int(nx / 2 - cx / 2), int(nx / 2 + cx / 2)
+                            blk = m[r0:r1, c0:c1]
+                            if blk.shape == (cy, cx) and np.all((blk == 1) | (rr_[r0:r1, c0:c1] >= 1)):
+                                csite = CONFLICT_SITE
+                        if ("calibration_not_fully_sampled", csite) in getattr(self, "known", set()):
+                            res.known_hits.append({"invariant": "calibration_not_fully_sampled", "site": csite,
+                                                   "detail": codec.jsonable({"args": args})})
+                            stats["probes.known_finding_hit"] += 1
+                        else:
+                            raise Violation("calibration_not_fully_sampled", csite, step, {"args": args})
                 if args["crop_corner"]:
                     yy, xx = np.mgrid[:ny, :nx]
-                    xr = np.maximum(np.abs(xx - nx / 2) - cx / 2, 0)
-                    xr = xr / xr.max()
-                    yr = np.maximum(np.abs(yy - ny / 2) - cy / 2, 0)
-                    yr = yr / yr.max()
-                    rr = np.sqrt(xr ** 2 + yr ** 2)
+                    rr = _crop_radius(ny, nx, cy, cx)
                     stats["probes.rng_crop_checked"] += 1
                     if np.any((m != 0) & (rr >= 1)):
                         raise Violation("sample_outside_cropped_region", site, step, {"args": args})
